@@ -204,6 +204,13 @@ def gen(case):
         k0 = int(rng.integers(0, len(sizes)))
         a = int(np.sum(sizes[:k0]))
         z[a:a + sizes[k0]] = 0.0
+    if m > 2 and rng.random() < 0.35:
+        # the components of the observation vector in any order: independent groups are then INTERLEAVED ([pos_N, pos_E, vel_N, vel_E] with position /
+        # velocity noise correlated per axis); mean, covariance and the whitening by the LOWER Cholesky factor of S refer to the order given.
+        # (The sequential pass over contiguous blocks is skipped for such a case: one block.)
+        perm = rng.permutation(m)
+        z, H, R = z[perm], H[perm], R[np.ix_(perm, perm)]
+        sizes = [m]
     return x, P, z, H, R, sizes
 
 
